@@ -28,7 +28,7 @@ pub struct Mon {
     pub nontrivial: BTreeSet<u64>,
     pub max_id: Vec<u32>,
     pub last_lcid: Vec<u32>,
-    pub issued: Vec<BTreeMap<String, (u32, u32)>>,
+    pub issued: Vec<BTreeMap<String, Vec<(u32, u32)>>>,
     pub gen_invalid: Option<String>,
     pub digest: String,
     pub counters: BTreeMap<String, u64>,
@@ -793,23 +793,9 @@ impl Mon {
             return;
         }
         self.last_lcid[peer] = d.last_call_request_id;
-        // C05: no instance requested twice
-        for (id, rq) in &reqs {
-            let k = inst_key(rq);
-            if self.analysis.calls.get(&rq.function).map(|c| c.multi).unwrap_or(false) {
-                continue; // the last instruction of a stream fold runs once per generation
-            }
-            if let Some((old, oeid)) = self.issued[peer].get(&k) {
-                let dd = format!("peer {peer} eid {eid}: call instance {k} requested again under id {id} (first under id {old} at eid {oeid})");
-                self.report(w, Some(idx), "C05", "requested-twice", dd);
-                return;
-            }
-            self.issued[peer].insert(k, (*id, eid));
-        }
-        // C05/C06: every result consumed so far is recorded exactly once, at the call that requested it
-        let states = call_states(&d);
-        let consumed: Vec<(u32, crate::interp::Req, SvcRes, usize)> =
-            w.peers[peer].consumed.iter().map(|(k, v)| (*k, v.0.clone(), v.1.clone(), v.2)).collect();
+        // C05: no instance requested twice. Two instances can share a key (iterations over a collection holding
+        // equal values); an older request under the same key belongs to another instance iff it is still pending
+        // in the returned data or its result was consumed.
         let me = w.ids[peer].clone();
         let mut pend: BTreeSet<u32> = BTreeSet::new();
         for s in d.trace.iter() {
@@ -819,7 +805,31 @@ impl Mon {
                 }
             }
         }
-        for (id, rq, res, ridx) in consumed {
+        for (id, rq) in &reqs {
+            let k = inst_key(rq);
+            if self.analysis.calls.get(&rq.function).map(|c| c.multi).unwrap_or(false) {
+                continue; // the last instruction of a stream fold runs once per generation
+            }
+            let olds = self.issued[peer].get(&k).cloned().unwrap_or_default();
+            for (old, oeid) in olds {
+                if pend.contains(&old) || w.peers[peer].consumed.contains_key(&old) {
+                    continue;
+                }
+                let dd = format!("peer {peer} eid {eid}: call instance {k} requested again under id {id} (first under id {old} at eid {oeid})");
+                self.report(w, Some(idx), "C05", "requested-twice", dd);
+                return;
+            }
+            self.issued[peer].entry(k).or_default().push((*id, eid));
+        }
+        // C05/C06: every result consumed so far is recorded exactly once, at the call that requested it
+        let states = call_states(&d);
+        let consumed: Vec<(u32, crate::interp::Req, SvcRes, usize)> =
+            w.peers[peer].consumed.iter().map(|(k, v)| (*k, v.0.clone(), v.1.clone(), v.2)).collect();
+        let same_key_consumed = |rq: &crate::interp::Req| -> usize {
+            w.peers[peer].consumed.iter().filter(|(k, v)| !pend.contains(k) && v.0.function == rq.function && v.0.arg_hash == rq.arg_hash).count()
+        };
+        let expected_counts: Vec<usize> = consumed.iter().map(|c| same_key_consumed(&c.1)).collect();
+        for ((id, rq, res, ridx), expected) in consumed.into_iter().zip(expected_counts) {
             if pend.contains(&id) {
                 // fed but the call's position was not reached in that run: reported as 30000 (checked below)
                 continue;
@@ -829,6 +839,10 @@ impl Mon {
                 continue;
             }
             let matching: Vec<_> = states.iter().filter(|s| s.2 == rq.function && s.3 == rq.arg_hash).collect();
+            if matching.len() != 1 && matching.len() == expected && expected > 1 {
+                // equal values in the iterated collection: as many equal instances as consumed results
+                continue;
+            }
             if matching.len() != 1 {
                 // was the result dropped because the run that received it ended with an error that returned prev?
                 let rc = class(w.runs[ridx].out.code);
